@@ -151,10 +151,10 @@ def scenario_get(cs, stack, A, n, cohort, seed, order, perm_ids, key_of, expecte
   return None
 
 
-def scenario_stream(cs, stack, A, n, cohort, start, seed0, idmap=lambda i: i):
+def scenario_stream(cs, stack, A, n, cohort, start, seed0, idmap=lambda i: i, tape=None):
   """UniformShuffledClientSampler(start_round_num=r) over a seeded stream == rounds r, r+1, ... of one started at 0."""
   if A is M:
-    np_lite.set_tape(None)
+    np_lite.set_tape(tape)      # None: tape-free deterministic shuffles; a list: the seeded generator's draws (same tape for every generator of that seed)
   seed = 0 if seed0 else 3
   fd = make_fd(stack, A, n, idmap)
 
@@ -211,6 +211,20 @@ def get_sampler_reach(i1: int, i2: int, p1: int, p2: int) -> bool:
   """
   n, cohort, seed = _NCFG
   return scenario_get(CS, S, M, n, cohort, seed, [ROUNDS[i1], ROUNDS[i2]], [p1 % FACT[n], p2 % FACT[n]], lambda k: k, _model_expected, SeededDraws.reset) is None
+
+
+def stream_sampler_tape(flips: List[bool], start: int) -> bool:
+  """
+  3 clients, cohort 2, shuffle buffer 2: the initial shuffle of every pass is symbolic (flips[k] = pass k starts reversed), so a
+  round's window may straddle two passes and contain the same client twice.
+  pre: len(flips) == 5
+  pre: 1 <= start <= 2
+  post: __return__
+  """
+  tape = []
+  for f in flips:
+    tape += ([1, 0] if f else [0, 1]) + [0]
+  return scenario_stream(CS, S, M, 3, 2, start, False, tape=tape) is None
 
 
 def stream_sampler(n: int, cohort: int, start: int, seed0: bool) -> bool:
